@@ -220,3 +220,48 @@ class TypeOrder(Contract):
         out.append((f'rank/{type(a).__name__}-vs-{type(c).__name__}', ok,
                     f'_type_order({a!r})={ta!r}, _type_order({c!r})={tc!r}, lt={base.lt(a, c)}'))
     return out
+
+
+# ---------------------------------------------------------------------------
+# pg.Ref equality: two references are equal exactly when they refer to the very
+# same object; a reference never equals its own target (that would break the
+# symmetry of pg.eq, whose dispatch asks the left operand first).
+
+from pyglove.core.symbolic import ref as _ref   # noqa: E402  pylint: disable=wrong-import-position
+
+
+class Referent:
+  """Marker: an abstract referenced object."""
+
+
+@register
+class RefSymEq(Contract):
+  prop = 'C06'
+  target = 'pyglove.core.symbolic.ref:Ref.sym_eq'
+  inline = ('pyglove.core.symbolic.ref:Ref.value',)
+
+  def inputs(self, b):
+    self._target = SObj(Referent, {}, name='target')
+    self._other_target = SObj(Referent, {}, name='other_target')
+    s = SObj(_ref.Ref, {'_value': self._target}, name='self')
+    other_ref_same = SObj(_ref.Ref, {'_value': self._target}, name='ref_to_same')
+    other_ref_diff = SObj(_ref.Ref, {'_value': self._other_target}, name='ref_to_other')
+    self._kinds = {'ref_to_same': other_ref_same, 'ref_to_other': other_ref_diff}
+    other = b.choice('other_kind', [other_ref_same, other_ref_diff, self._target, self._other_target, 5, None])
+    return dict(self=s, other=other), {}
+
+  def ensures_equal_iff_reference_to_the_same_object(self, self_, other, result):
+    return result == (other is self._kinds['ref_to_same'])
+
+  def replay(self, obligation, m):
+    class _A(pg.Object):
+      x: pg.typing.Any()
+    a, b_ = _A(1), _A(1)
+    cases = (('Ref(a) ~ Ref(a)', pg.Ref(a), pg.Ref(a), True), ('Ref(a) ~ Ref(b)', pg.Ref(a), pg.Ref(b_), False),
+             ('Ref(a) ~ a', pg.Ref(a), a, False), ('a ~ Ref(a)', a, pg.Ref(a), False))
+    bad = [f'pg.eq({n}) = {pg.eq(l, r)}, want {w}' for n, l, r, w in cases if pg.eq(l, r) != w]
+    return dict(outcome='reproduced' if bad else 'not-reproduced', detail='; '.join(bad) or 'agrees')
+
+  def small_models(self):
+    from pyvc.contracts import Model
+    yield Model({}, {})
